@@ -288,6 +288,53 @@ func runImpl(cases []Case, perCase time.Duration) ([]implRes, int) {
 			}
 		}
 	}
+	// A case that did not return within the limit may just have been starved (other checks, a seed battery
+	// and a dozen compilers can share the machine): it is run again, alone in a fresh worker, with fifteen
+	// times the limit, and only if it does not return then either is it a hang.  Once three hangs are
+	// confirmed the remaining time-outs are taken at their word - there is a failing input already.
+	confirmed := 0
+	for i := range cases {
+		if res[i].obs != "(hang)" || confirmed >= 3 {
+			continue
+		}
+		w2, err := startWorker()
+		if err != nil {
+			break
+		}
+		c := &cases[i]
+		meta := c.Meta
+		if meta == nil {
+			meta = sx.L()
+		}
+		line := sx.L(sx.I(int64(c.ID)), c.Cmd, meta).String() + "\n"
+		if _, werr := io.WriteString(w2.stdin, line); werr != nil {
+			w2.kill()
+			continue
+		}
+		select {
+		case got, ok := <-w2.lines:
+			if !ok {
+				res[i] = implRes{obs: "(crash process-died)", stderr: w2.stderr.String()}
+				break
+			}
+			x, err := sx.Parse(got)
+			if err != nil || x.K != sx.List || len(x.Xs) != 3 {
+				res[i] = implRes{obs: "(bad-worker-output)"}
+				break
+			}
+			res[i] = implRes{obs: x.Xs[1].String()}
+			v := x.Xs[2]
+			if len(v.Xs) == 2 && v.Xs[0].A == "fail" {
+				res[i].fail = string(v.Xs[1].B)
+				if res[i].fail == "" {
+					res[i].fail = "oracle failed"
+				}
+			}
+		case <-time.After(15 * perCase):
+			confirmed++
+		}
+		w2.kill()
+	}
 	return res, restarts
 }
 
